@@ -92,11 +92,21 @@ func (d *c07Driver) disarm(ch *c07Chan, cd *c07Countdown, op string, err error) 
 // mutation that returned a context error took effect. pre / post are the log
 // ends before and after the operation would have been applied.
 func (d *c07Driver) reconcileLog(s c07Surface, ch *c07Chan, op string, post uint64, mayApply bool, w map[string]any) (applied bool, ok bool) {
-	leo, err := s.LEO(ch)
-	d.r.Eval(1)
 	if w == nil {
 		w = map[string]any{}
 	}
+	// A cancelled caller may only have stopped waiting: the documented outcome
+	// is then "unknown" and the admitted commit finishes on its own. Serialise
+	// behind it before reading back.
+	if fc, isF := s.(interface{ Fence(*c07Chan) error }); isF {
+		if ferr := fc.Fence(ch); ferr != nil {
+			w["err"] = ferr.Error()
+			d.violate(s.Quirks().Name+":"+op+":fence-error-after-cancelled-op", w)
+			return false, false
+		}
+	}
+	leo, err := s.LEO(ch)
+	d.r.Eval(1)
 	w["model_leo"], w["leo_after_cancel"], w["post_leo_if_applied"] = ch.LEO, leo, post
 	name := s.Quirks().Name
 	if err != nil {
@@ -104,7 +114,7 @@ func (d *c07Driver) reconcileLog(s c07Surface, ch *c07Chan, op string, post uint
 		d.violate(name+":"+op+":leo-error-after-cancelled-op", w)
 		return false, false
 	}
-	if f, isF := s.(*c07Factory); isF && f.lastNotWritten && leo != ch.LEO {
+	if f, isF := s.(*c07Factory); isF && f.NotWritten(ch) && leo != ch.LEO {
 		d.violate(name+":"+op+":definitely-not-written-but-log-changed", w)
 		return false, false
 	}
